@@ -283,6 +283,10 @@ def case_for(prop, tier, seed, idx):
                 o["pre"] = [rng.choice(["garbage", "empty", "wrong-type"])]
             elif r < 0.28:
                 o["pre"] = ["peek", rng.choice(["garbage", "wrong-type"])]
+    if case["machine"] == "M-DI":
+        for o in case["ops"]:
+            if o.get("op") == "restart" and "pre" not in o and rng.random() < 0.3:
+                o["pre"] = ["used-other-disc"]
     if case["machine"] in ("M-CI", "M-IM", "M-RP", "M-MO", "M-XF"):
         # one restart in ten goes through a document the caller parsed itself (deserialize(), twice from one mapping)
         for o in case["ops"]:
